@@ -19,6 +19,7 @@ import json
 import os
 
 import vf
+import x04ds
 
 WORKERS = 6          # TLC workers (the machine is shared)
 GO_WORKERS = 6
@@ -131,6 +132,8 @@ def run_replay(ctx, path):
             ctx.seed = obj["seed"]
         res = ctx.go_driver("./c20", "TestDecideReplay", {"cases": [obj["case"]]}, name="replay_decide")
         fold(ctx, res, "replay", "[replay decide] ")
+    elif drv == "c04-d64":
+        x04ds.run_replay(ctx, path)      # DNS64 over the real cache (TtlMin on a cached, aged AAAA NODATA)
     else:
         raise vf.MachineryError("replay file %s has no C20 driver tag" % path)
     ctx.cov["states"] = max(ctx.cov["states"], 1)
@@ -156,3 +159,7 @@ def run(ctx, replay):
         return
     layout(ctx, thorough)
     decide(ctx, thorough)
+    # the multi-step form of "TTL no larger than ... the AAAA negative TTL": the NODATA dns64 is handed comes from the
+    # real cache after it has aged (SOA TTL counted down, MINIMUM not), the A RRset from another entry of another age
+    # (Lease64.tla behaviours on [dns64, cache, scripted downstream]; the model is checked by C04 / X04DS)
+    x04ds.run_tier(ctx, focus="c20", model=False)
